@@ -213,10 +213,12 @@ fn check_case(check: &Check, case: &Case, origin: &str) -> CaseResult {
     }
     if !spec.listfile {
         // without a listfile the source has no listed names: only silent loss can be judged
-        let total = spec.files.len();
+        // files the options explicitly exclude (skip_encrypted) are not expected in the target
+        let expected_files: Vec<&FileSpec> = spec.files.iter().filter(|f| !(o.skip_encrypted && f.enc != Enc::None)).collect();
+        let total = expected_files.len();
         if total > 0 {
             let mut t = Archive::open(&dst).map_err(|e| engine::Fail::new("target-unopenable", format!("{e}")))?;
-            let present = spec.files.iter().filter(|f| matches!(t.find_file(&f.name), Ok(Some(_)))).count();
+            let present = expected_files.iter().filter(|f| matches!(t.find_file(&f.name), Ok(Some(_)))).count();
             if present < total {
                 vfail!(
                     format!("rebuild-ok-but-files-lost:{lf}:{tables}"),
